@@ -124,13 +124,21 @@ impl SendBuffer {
 /// bytes a QUIC varint takes (VarInt::size: real body under contract in unit frame_codec, all 2^62 values checked by Kani varint_roundtrip)
 pub open spec fn vsize(x: u64) -> usize { if x < 0x40 { 1 } else if x < 0x4000 { 2 } else if x < 0x4000_0000 { 4 } else { 8 } }
 pub open spec fn osize(start: u64) -> usize { if start != 0 { vsize(start) } else { 0 } }
-pub struct Send { pub state: SendState, pub pending: SendBuffer, pub max_data: u64, pub connection_blocked: bool, pub priority: i32, pub fin_pending: bool }
+pub struct Send { pub state: SendState, pub pending: SendBuffer, pub max_data: u64, pub connection_blocked: bool, pub priority: i32, pub fin_pending: bool, pub stop_reason: Option<VarInt> }
 impl Send {
     #[verifier::external_body] pub fn reset(&mut self) ensures final(self).state == SendState::ResetSent, final(self).pending == old(self).pending { unimplemented!() }
     pub fn is_reset(&self) -> (r: bool) ensures r == (self.state is ResetSent) { matches!(self.state, SendState::ResetSent) }
     /// clauses of Send::write proved on the real function in unit send_stream: at most `limit` bytes are taken, errors change nothing
+    pub fn is_writable(&self) -> (r: bool) ensures r == (self.state is Ready) { matches!(self.state, SendState::Ready) }
+    /// the error table of Send::write as proved on the real function in unit send_stream
     #[verifier::external_body] pub fn write<B: BytesSource>(&mut self, source: &mut B, limit: u64) -> (res: Result<Written, WriteError>)
-        ensures match res { Ok(w) => w.bytes <= limit, Err(_) => *final(self) == *old(self) },
+        ensures match res {
+                Ok(w) => w.bytes <= limit && old(self).state is Ready && old(self).stop_reason.is_none(),
+                Err(WriteError::ClosedStream) => !(old(self).state is Ready) && *final(self) == *old(self),
+                Err(WriteError::Stopped(c)) => old(self).state is Ready && old(self).stop_reason == Some(c) && *final(self) == *old(self),
+                Err(WriteError::Blocked) => old(self).state is Ready && old(self).stop_reason.is_none() && *final(self) == *old(self),
+            },
+            final(self).state == old(self).state, final(self).stop_reason == old(self).stop_reason,
             final(self).priority == old(self).priority, final(self).connection_blocked == old(self).connection_blocked
     { unimplemented!() }
     /// Send::ack (proved against its own contract in unit send_stream): never changes whether the stream is reset
@@ -1138,7 +1146,7 @@ impl<'a> RecvStream<'a> {
 }
 impl<'a> SendStream<'a> {
 //@ extract quinn-proto/src/connection/streams/mod.rs :: impl SendStream<'a>::fn write_source
-//@ props C05
+//@ props C05 C11
 //@ ret res
 //@ replace ws:self .state .send .get_mut(&self.id) .map(get_or_insert_send(max_send_data)) => send_entry(&mut self.state.send, self.id, max_send_data)
 //@ contract
@@ -1152,7 +1160,15 @@ impl<'a> SendStream<'a> {
                     && final(self).state.unacked_data == old(self).state.unacked_data + w.bytes
                     && (w.bytes > 0 ==> final(self).state.unacked_data <= old(self).state.send_window),
                 Err(_) => final(self).state.data_sent == old(self).state.data_sent && final(self).state.unacked_data == old(self).state.unacked_data,
-            }
+            },
+            // C11: while the connection is open the result is determined by the state of the sending half, whatever the connection-level
+            // credit: closed after finish / reset, the peer's STOP_SENDING code once stopped, and only otherwise Ok or Blocked
+            !old(self).conn_state.closed() ==> match send_abs(old(self).state.send, old(self).id) {
+                None => res matches Err(WriteError::ClosedStream),
+                Some(s0) => if !(s0.state is Ready) { res matches Err(WriteError::ClosedStream) }
+                    else if s0.stop_reason is Some { res matches Err(WriteError::Stopped(c)) && Some(c) == s0.stop_reason }
+                    else { res is Ok || res matches Err(WriteError::Blocked) },
+            },
 //@ end
 //@ extract quinn-proto/src/connection/streams/mod.rs :: impl SendStream<'a>::fn reset
 //@ props C05 C11
